@@ -1223,18 +1223,39 @@ impl<'b> std::io::Read for Scripted<'b> {
         }
     }
 }
+/// `Error::source()` of a `GeneratorOrIOError`: "io" / "gen" when it is the wrapped error itself
+/// (same kind and text / equal value), "bad" otherwise
+fn io_source(e: &ssdeep::GeneratorOrIOError) -> &'static str {
+    use std::error::Error;
+    match (e, e.source()) {
+        (ssdeep::GeneratorOrIOError::IOError(w), Some(s)) => match s.downcast_ref::<std::io::Error>() {
+            Some(x) if x.kind() == w.kind() && x.to_string() == w.to_string() => "io",
+            _ => "bad",
+        },
+        (ssdeep::GeneratorOrIOError::GeneratorError(w), Some(s)) => match s.downcast_ref::<GeneratorError>() {
+            Some(x) if x == w => "gen",
+            _ => "bad",
+        },
+        _ => "bad",
+    }
+}
 pub(super) fn io_result_json(r: std::thread::Result<Result<ssdeep::RawFuzzyHash, ssdeep::GeneratorOrIOError>>) -> String {
     match r {
-        Err(_) => "{\"e\":\"panic\",\"kind\":\"\",\"id\":-1}".to_string(),
-        Ok(Err(ssdeep::GeneratorOrIOError::GeneratorError(e))) => format!("{{\"e\":\"{}\",\"kind\":\"\",\"id\":-1}}", gerr(e)),
-        Ok(Err(ssdeep::GeneratorOrIOError::IOError(e))) => {
-            let msg = e.to_string();
-            let id: i64 = msg.strip_prefix("id=").and_then(|x| x.parse().ok()).unwrap_or(-1);
-            format!("{{\"e\":\"io\",\"kind\":\"{}\",\"id\":{}}}", kind_name(e.kind()), id)
+        Err(_) => "{\"e\":\"panic\",\"kind\":\"\",\"id\":-1,\"src\":\"\"}".to_string(),
+        Ok(Err(e)) => {
+            let src = io_source(&e);
+            match e {
+                ssdeep::GeneratorOrIOError::GeneratorError(e) => format!("{{\"e\":\"{}\",\"kind\":\"\",\"id\":-1,\"src\":\"{}\"}}", gerr(e), src),
+                ssdeep::GeneratorOrIOError::IOError(e) => {
+                    let msg = e.to_string();
+                    let id: i64 = msg.strip_prefix("id=").and_then(|x| x.parse().ok()).unwrap_or(-1);
+                    format!("{{\"e\":\"io\",\"kind\":\"{}\",\"id\":{},\"src\":\"{}\"}}", kind_name(e.kind()), id, src)
+                }
+            }
         }
         Ok(Ok(h)) => {
             let s = res_json::<64, 32>(Ok(Ok(h)));
-            format!("{},\"kind\":\"\",\"id\":-1}}", &s[..s.len() - 1])
+            format!("{},\"kind\":\"\",\"id\":-1,\"src\":\"\"}}", &s[..s.len() - 1])
         }
     }
 }
